@@ -10,6 +10,7 @@
 (*                                                                          *)
 (*   Termination  ==  <>done        (liveness, under weak fairness of Next) *)
 (*   ReportsCycles == done => (poisoned <=> a cycle is reachable from Root) *)
+(*                    (in TypeResolveProps.tla, which needs RECURSIVE)      *)
 (*                                                                          *)
 (* With Bounded = FALSE (the code before the repair — deviation             *)
 (* Dev_UnboundedTypeRecursion) TLC finds the lasso: `type P = P`.           *)
@@ -26,7 +27,8 @@ CONSTANTS Names,        \* declared type names; the annotation refers to Root
 Leaf      == [k |-> "leaf"]                       \* an object type literal (declares one prop, named after its alias)
 Ref(n)    == [k |-> "ref", n |-> n]
 Inter(a, b) == [k |-> "inter", a |-> a, b |-> b]  \* A & B (both references)
-Bodies == {Leaf} \cup {Ref(n) : n \in Names} \cup {Inter(Ref(a), Ref(b)) : a \in Names, b \in Names}
+Inters == UNION {{Inter(Ref(a), Ref(b)) : b \in Names} : a \in Names}     \* (one bound variable per constructor: the proof system's back ends need it)
+Bodies == {Leaf} \cup {Ref(n) : n \in Names} \cup Inters
 
 VARIABLES decl,      \* Names -> Bodies : the declarations of the module (the input)
           stack,     \* the call stack of resolve_type_elements: each frame is the sequence of type expressions still to resolve
@@ -80,15 +82,6 @@ Spec == Init /\ [][Next]_vars /\ WF_vars(Next)
 (* ---- properties ---- *)
 Termination == <>done
 
-RefsOf(t) == CASE t.k = "leaf" -> {} [] t.k = "ref" -> {t.n} [] t.k = "inter" -> {t.a.n, t.b.n}
-RECURSIVE ReachFrom(_, _)
-ReachFrom(S, n) ==           \* names reachable from the set S in at most n steps
-  IF n = 0 THEN S ELSE ReachFrom(S \cup UNION {RefsOf(decl[m]) : m \in S}, n - 1)
-Reachable == ReachFrom({Root}, Cardinality(Names))
-OnCycle(m) == m \in ReachFrom(RefsOf(decl[m]), Cardinality(Names))
-CycleReachable == \E m \in Reachable : OnCycle(m)
-
-ReportsCycles == done => (poisoned <=> (Bounded /\ CycleReachable))
 DepthBounded  == Bounded => Len(stack) <= MaxDepth + 1
 NoOverflow    == Len(stack) <= StackLimit        \* violated (only) without the depth bound: the stack overflow of `type P = P`
 =============================================================================
